@@ -22,22 +22,22 @@ if os.path.exists(vl):
 base = os.environ.get("SEED_BASE", "")
 applies = subprocess.run(["git", "-C", "/repo", "apply", "--check", os.path.join(dst, "patch.diff")]).returncode == 0
 if applies:
-    subprocess.run(["git", "-C", "/repo", "apply", os.path.join(dst, "patch.diff")], check=True)
-    try:
-        out = subprocess.run(["/verif/run.sh", "check", prop, "quick"], capture_output=True, text=True).stdout
-    finally:
-        subprocess.run("git -C /repo checkout -- . && git -C /repo clean -fdq", shell=True, check=True)
-    base_used = subprocess.run(["git", "-C", "/repo", "log", "--format=%h", "-1"], capture_output=True, text=True).stdout.strip()
+    base = subprocess.run(["git", "-C", "/repo", "log", "--format=%h", "-1"], capture_output=True, text=True).stdout.strip()
 else:
     assert base, "patch does not apply to HEAD; set SEED_BASE=<commit>"
-    wt = "/tmp/seedwt-" + name
-    subprocess.run(["git", "-C", "/repo", "worktree", "add", "--detach", wt, base], check=True, capture_output=True)
-    try:
-        subprocess.run(["git", "-C", wt, "apply", os.path.join(dst, "patch.diff")], check=True)
-        out = subprocess.run(["/verif/run.sh", "check", prop, "quick"], capture_output=True, text=True, env=dict(os.environ, VERIF_REPO=wt)).stdout
-    finally:
-        subprocess.run(["git", "-C", "/repo", "worktree", "remove", "--force", wt])
-    base_used = base
+wt = "/tmp/seedwt-" + name
+subprocess.run(["git", "-C", "/repo", "worktree", "add", "--detach", wt, base], check=True, capture_output=True)
+try:
+    env = dict(os.environ, VERIF_REPO=wt, VERIF_EVIDENCE_DIR="/tmp/seedev-" + name)
+    base_out = subprocess.run(["/verif/run.sh", "check", prop, "quick"], capture_output=True, text=True, env=env).stdout
+    subprocess.run(["git", "-C", wt, "apply", os.path.join(dst, "patch.diff")], check=True)
+    out = subprocess.run(["/verif/run.sh", "check", prop, "quick"], capture_output=True, text=True, env=env).stdout
+finally:
+    subprocess.run(["git", "-C", "/repo", "worktree", "remove", "--force", wt])
+    shutil.rmtree("/tmp/seedev-" + name, ignore_errors=True)
+base_used = base
+base_viol = set(re.findall(r"violation: rule=(\S+ func=\S+ construct=\"[^\"]*\")", base_out))
+out = "\n".join(l for l in out.splitlines() if not any(v in l for v in base_viol))
 rules = sorted(set(re.findall(r"violation: rule=(\S+)", out)))
 summ = [l for l in out.splitlines() if l.startswith("property=")]
 meta = {
